@@ -831,6 +831,26 @@ func (en *evalEnv) call(x *ECall) ev {
 			}
 		}
 	}
+	if e.Opt.Contracts != nil {
+		for pf := range e.Opt.Contracts.PureFuncs {
+			if i := strings.LastIndex(pf, "."); i >= 0 && pf[i+1:] == x.Fun {
+				fn := e.P.Funcs[pf]
+				if fn == nil || fn.Signature.Results().Len() != 1 {
+					en.fail("pure function %s: not found or not single-valued", pf)
+				}
+				var as []*Term
+				for k := range x.Args {
+					t, ok := arg(k).v.(*Term)
+					if !ok {
+						en.fail("pure function %s: argument %d is not a scalar or object", pf, k)
+					}
+					as = append(as, t)
+				}
+				rt := fn.Signature.Results().At(0).Type()
+				return ev{e.pureFuncApp(pf, sortOf(rt), as), rt}
+			}
+		}
+	}
 	if g, ok := en.e.ghostFuncs[x.Fun]; ok {
 		var as []ev
 		for i := range x.Args {
